@@ -63,6 +63,10 @@ func (prefixEngine) Gen(rng *rand.Rand, tier string, i int) any {
 		// client's plain request waits behind it
 		return &prefixCase{Pool: genPool(rng, 48), Alloc: 64, Clients: 2, Msgs: 0, Seed: rng.Int63(), Probe: "slow-neighbour"}
 	}
+	if i%64 == 15 {
+		// hoarder probe: one client collects thousands of blocks, then asks without a hint
+		return &prefixCase{Pool: genPool(rng, 48), Alloc: 64, Clients: 1, Msgs: []int{1500, 2000, 2240, 2300, 3000, 5000}[rng.Intn(6)], Seed: rng.Int63(), Probe: "hoard"}
+	}
 	if i%64 == 63 {
 		// long-gap probe: a holder comes back after exactly 2^k-1, 2^k, 2^k+1 ... IA_PDs of other clients
 		return &prefixCase{Pool: genPool(rng, 56), Alloc: 64, Clients: 2, Msgs: 0, Seed: rng.Int63(), Probe: "gap"}
@@ -373,6 +377,10 @@ func (r *pdRun) exchange(data []byte, desc string) {
 	hadKnown := len(r.m.Known[client]) > 0
 	for _, f := range r.m.Judge(client, reqPDs, repPDs, tBefore, tAfter) {
 		ctx.Viol(f.Prop, f.Sig, "pool %s /%d (configured as %q %q, log level %s): %s\n  last: %v", r.c.Pool, r.c.Alloc, spellPool(r.c.Seed, r.pool), spellAlloc(r.c.Seed, r.c.Alloc), caseLogLevel(r.c.Seed), f.Msg, r.trace)
+		if f.Sig == "prefix-malformed" {
+			// (not a block of the pool as configured: the allocator-level statement seen through the plugin)
+			ctx.Viol("C05", "plugin:"+f.Sig, "pool %s /%d (configured as %q %q): %s", r.c.Pool, r.c.Alloc, spellPool(r.c.Seed, r.pool), spellAlloc(r.c.Seed, r.c.Alloc), f.Msg)
+		}
 	}
 	if hadKnown && len(reqPDs) > 0 {
 		r.sawRenew = true
@@ -451,6 +459,74 @@ func (r *pdRun) slowNeighbourProbe() {
 		}
 	}
 	r.ctx.Nontrivial("C08", fmt.Sprintf("slow/%s/%d", r.c.Pool, r.c.Seed))
+}
+
+// hoardProbe: one client collects c.Msgs blocks through exact hints (500 per REQUEST), then sends a hint-less
+// SOLICIT. Like every IA_PD, that one is answered by exactly one IA_PD with its IAID that holds at least one
+// prefix or NoPrefixAvail - in a reply that a client can receive (it fits a UDP datagram) and parse.
+func (r *pdRun) hoardProbe() {
+	n := r.c.Msgs
+	for first := 0; first < n; first += 500 {
+		var sub []pkt.Opt6
+		for k := first; k < first+500 && k < n; k++ {
+			sub = append(sub, pkt.IAPrefix(0, 0, 64, r.blockAddr(int64(k)), nil))
+		}
+		r.xid++
+		if rep, _, _ := one6(r.s, pkt.Msg6(3, r.xid, []pkt.Opt6{pkt.O6(pkt.OptClientID6, r.duids[0]), pkt.IAPD(1, 0, 0, sub)})); rep == nil {
+			r.ctx.Viol("C08", "request-not-answered", "a REQUEST with %d in-pool hints got no reply", len(sub))
+			return
+		}
+	}
+	r.xid++
+	caps := r.s.Do(pkt.Msg6(1, r.xid, []pkt.Opt6{pkt.O6(pkt.OptClientID6, r.duids[0]), pkt.IAPD(9, 0, 0, nil)}), fakeIf, clientPeer6)
+	r.ctx.Count("prefix.hoard_probes", 1)
+	r.ctx.Eval("C08", 1)
+	r.ctx.Nontrivial("C08", fmt.Sprintf("hoard/%s/%d", r.c.Pool, n))
+	what := ""
+	switch {
+	case len(caps) != 1:
+		what = fmt.Sprintf("%d datagrams were sent", len(caps))
+	case len(caps[0].Payload) > 65507:
+		what = fmt.Sprintf("the reply has %d bytes - more than a UDP datagram carries, the server's send fails and the client gets nothing", len(caps[0].Payload))
+	default:
+		d, err := dhcpv6.FromBytes(caps[0].Payload)
+		if err != nil {
+			what = fmt.Sprintf("the reply (%d bytes) does not parse: %v", len(caps[0].Payload), err)
+			break
+		}
+		m, err := d.GetInnerMessage()
+		if err != nil {
+			what = "the reply has no message"
+			break
+		}
+		pds := decodeRepPDs(m)
+		if len(pds) != 1 || pds[0].IAID != [4]byte{0, 0, 0, 9} || (len(pds[0].Prefixes) == 0 && pds[0].Status != 6) {
+			what = fmt.Sprintf("the reply carries %d IA_PDs (%+v)", len(pds), clipPDs(pds))
+		} else {
+			r.ctx.Count("prefix.hoard_probe_replies_usable", 1)
+			r.ctx.Count(fmt.Sprintf("prefix.hoard_probe_usable_with_%d_blocks", n), 1)
+		}
+	}
+	if what != "" {
+		class := "up-to-2250-blocks"
+		if n > 2250 {
+			class = "over-2250-blocks" // (the complete list no longer fits one datagram)
+		}
+		r.ctx.Viol("C08", "holder-of-thousands-gets-no-usable-reply:"+class, "pool %s /%d: a client that holds %d blocks (collected with exact hints, 500 per REQUEST) sends a SOLICIT with one hint-less IA_PD (IAID 9): %s; want one IA_PD with IAID 9 holding at least one prefix or NoPrefixAvail", r.c.Pool, r.c.Alloc, n, what)
+	}
+}
+
+func clipPDs(p []model.ReplyPD) []model.ReplyPD {
+	if len(p) > 2 {
+		p = p[:2]
+	}
+	out := append([]model.ReplyPD(nil), p...)
+	for i := range out {
+		if len(out[i].Prefixes) > 3 {
+			out[i].Prefixes = out[i].Prefixes[:3]
+		}
+	}
+	return out
 }
 
 // gapProbe: client A is told it holds P, then other clients send exactly g IA_PDs (g around 2^8 and 2^16,
@@ -538,7 +614,8 @@ func (prefixEngine) Run(ctx *fw.Ctx, cs any) {
 	spelled := spellPool(c.Seed, pool)
 	h, err := prefix.Plugin.Setup6(spelled, spellAlloc(c.Seed, c.Alloc))
 	if err != nil {
-		ctx.Viol("C08", "setup-fails", "prefix plugin setup(%s, %d) failed: %v", spelled, c.Alloc, err)
+		ctx.Viol("C08", "setup-fails", "prefix plugin setup(%s, %s) failed: %v", spelled, spellAlloc(c.Seed, c.Alloc), err)
+		ctx.Viol("C05", "plugin:setup-fails", "a pool of /%d blocks configured as prefix %q %q is refused: %v", c.Alloc, spelled, spellAlloc(c.Seed, c.Alloc), err)
 		return
 	}
 	if spelled != c.Pool {
@@ -563,6 +640,10 @@ func (prefixEngine) Run(ctx *fw.Ctx, cs any) {
 	}
 	if c.Probe == "slow-neighbour" {
 		r.slowNeighbourProbe()
+		return
+	}
+	if c.Probe == "hoard" {
+		r.hoardProbe()
 		return
 	}
 	var last []byte
